@@ -249,7 +249,7 @@ Definition create_obs (p : prm) (c c1 : core) (f : frame) : list Z :=
    if 0 <? p_x p then Z.of_nat (f_id f) else 0] ++ ev_codes (create_evs (p_x p) (f_id f)).
 Definition finish_obs (p : prm) (c c1 : core) (f : frame) : list Z :=
   [0; h_allocs (hp c1) - h_allocs (hp c); h_frees (hp c1) - h_frees (hp c);
-   b2z (released (hp c1) (f_blk f)); 1] ++ ev_codes (finish_evs (p_x p) (f_id f)).
+   b2z (released (hp c1) (f_blk f)); 1; f_n f - p_x p] ++ ev_codes (finish_evs (p_x p) (f_id f)).
 
 (* one op, executed unconditionally when structurally valid (no contract check) *)
 Definition exec (p : prm) (c : core) (o : op) : core * list Z :=
@@ -317,11 +317,13 @@ Definition reuses (pol : policy) : bool :=
   match pol with PReu | PMts | PStk | PBuf | PPlc => true | PDef => false end.
 
 Record ost := mkO {
-  o_x : Z; o_up : bool; o_live : list (Z * Z);   (* slot, 1 if the frame did not cost an allocation-free reuse.. see below *)
+  o_x : Z; o_up : bool; o_live : list (Z * Z);   (* live frames: slot, requested size *)
   o_max : Z; o_nc : Z; o_allocs : Z; o_frees : Z; o_ok : bool
 }.
 Fixpoint zassoc_mem (k : Z) (l : list (Z * Z)) : bool :=
   match l with [] => false | (a, _) :: t => Z.eqb k a || zassoc_mem k t end.
+Fixpoint zassoc_get (k : Z) (l : list (Z * Z)) : Z :=
+  match l with [] => -1 | (a, b) :: t => if Z.eqb k a then b else zassoc_get k t end.
 Fixpoint zassoc_del (k : Z) (l : list (Z * Z)) : list (Z * Z) :=
   match l with [] => [] | (a, b) :: t => if Z.eqb k a then t else (a, b) :: zassoc_del k t end.
 Definition zlist_eqb (a b : list Z) : bool :=
@@ -350,11 +352,12 @@ Definition ostep (pol : policy) (s : ost) (q : list Z * list Z) : ost :=
                 && (if fresh =? 0 then al =? 0 else true)
                 && zlist_eqb evs (ev_codes (create_evs (o_x s) 0))
                 && (xv =? (if 0 <? o_x s then o_nc s else 0)) in
-      mkO (o_x s) (o_up s) ((slot, fresh) :: o_live s)
+      mkO (o_x s) (o_up s) ((slot, sz) :: o_live s)
           (if block_free then Z.max (o_max s) n else o_max s) (o_nc s + 1)
           (o_allocs s + al) (o_frees s + fr) (o_ok s && ok)
-  | [2; slot], 0 :: al :: fr :: rel :: can :: evs =>
+  | [2; slot], 0 :: al :: fr :: rel :: can :: dsz :: evs =>
       let ok := zassoc_mem slot (o_live s) && (al =? 0) && (fr =? rel) && ((rel =? 0) || (rel =? 1)) && (can =? 1)
+                && (dsz =? zassoc_get slot (o_live s))      (* dealloc is told the size alloc was asked for *)
                 && zlist_eqb evs (ev_codes (finish_evs (o_x s) 0)) in
       mkO (o_x s) (o_up s) (zassoc_del slot (o_live s)) (o_max s) (o_nc s) (o_allocs s + al) (o_frees s + fr) (o_ok s && ok)
   | [9], [0; al; fr] =>
@@ -396,7 +399,7 @@ Definition cres (i : nat) (t : thread) (c c1 : core) (f : frame) : list Z :=
    b2z (is_fresh (hp c) (f_blk f)); f_room f; overlaps (f_blk f) (frs c)].
 Definition fres (i : nat) (t : thread) (c c1 : core) (f : frame) : list Z :=
   [Z.of_nat i; Z.of_nat (t_done t); 2; h_allocs (hp c1) - h_allocs (hp c); h_frees (hp c1) - h_frees (hp c);
-   b2z (released (hp c1) (f_blk f)); 1].
+   b2z (released (hp c1) (f_blk f)); 1; f_n f].
 
 Definition upd (s : cst) (c : core) (i : nat) (t : thread) : cst := mkC c (set_nth (c_thr s) i t).
 
@@ -503,7 +506,7 @@ Definition mt_line_ok (ths : list thread) (l : list Z) : bool :=
   | [tid; j; 1; al; fr; fresh; room; ovl] => (0 <=? al) && (al <=? 1) && (fr <=? 1) && (0 <=? fr) && (ovl =? 0)
                                            && (if fresh =? 0 then al =? 0 else true)
                                            && (0 <? act_size ths tid j) && (ptr_sz <=? room - act_size ths tid j)
-  | [_; _; 2; al; fr; rel; can] => (al =? 0) && (fr =? rel) && ((rel =? 0) || (rel =? 1)) && (can =? 1)
+  | [_; _; 2; al; fr; rel; can; dsz] => (al =? 0) && (fr =? rel) && ((rel =? 0) || (rel =? 1)) && (can =? 1) && (0 <? dsz)
   | [10; a; f; lv] => (a =? f) && (lv =? 0)
   | _ => false
   end.
